@@ -316,6 +316,7 @@ def explore(ctx):
             lmeta.append(info)
         special_files(ctx, tmpdir)
         big_cases(ctx, tmpdir)
+        byte_order_and_big_integers(ctx, tmpdir)
         format_table(ctx, tmpdir)
     finally:
         shutil.rmtree(tmpdir, ignore_errors=True)
@@ -390,6 +391,68 @@ def special_files(ctx, tmpdir):
             ctx.case_done(None, ('special', kind, fmt, it) if len(d) >= 2 else None)
             if fails:
                 ctx.oracle_failure(dict(info, file=name), fails, {})
+
+
+def byte_order_and_big_integers(ctx, tmpdir):
+    """Arrays as other programs hand them over: big-endian data (what astropy.io.fits returns; also a dendrogram loaded from
+    FITS and saved again as HDF5), and 64-bit integers far beyond 2**53 with their (integer) default threshold.  Data,
+    label map, parameters and structure values must come back exactly.  Oracle only."""
+    rng = ctx.rng('c09-byteorder')
+    for it in range(24 if ctx.quick else 240):
+        n = rng.randint(4, 10)
+        kind = rng.choice(['big-endian', 'big-endian', 'via-fits', 'big-integers', 'big-integers'])
+        if kind == 'big-integers':
+            base = rng.choice([2 ** 53, 2 ** 60, 2 ** 62, -2 ** 60]) + rng.randint(1, 999)
+            vals = [base + rng.randint(1, 60) for _ in range(n)]
+            arr = np.array(vals, dtype=rng.choice(['int64', 'int64', 'uint64']) if base > 0 else 'int64')
+            kw = {} if rng.random() < 0.6 else {'min_value': base + rng.randint(0, 5), 'min_delta': rng.choice([0, 2 ** 54 + 1])}
+        else:
+            vals = [rng.randint(1, 40) for _ in range(n)]
+            arr = np.array(vals, dtype=rng.choice(['>f8', '>f4', '>i4', '>i2', '>i8']))
+            kw = {'min_value': 0}
+        info = {'stream': 'byte order / big integers', 'kind': kind, 'dtype': arr.dtype.str, 'data': vals, 'parameters': {k_: repr(v_) for k_, v_ in kw.items()}}
+        try:
+            d = Dendrogram.compute(arr, **kw)
+            if kind == 'via-fits':
+                p0 = os.path.join(tmpdir, 'first.fits')
+                d.save_to(p0)
+                d = Dendrogram.load_from(p0)
+                os.remove(p0)
+        except Exception as e:
+            ctx.oracle_failure(info, ['building the dendrogram raised %r' % (e,)], {})
+            continue
+        for fmt, name in (('hdf5', 'd.hdf5'), ('fits', 'd.fits')):
+            path = os.path.join(tmpdir, name)
+            ctx.count('byteorder=%s/%s' % (kind, fmt))
+            try:
+                d.save_to(path)
+                d2 = Dendrogram.load_from(path)
+            except Exception as e:
+                ctx.oracle_failure(dict(info, file=name), ['save_to / load_from raised %r' % (e,)], {'exc': type(e).__name__})
+                continue
+            finally:
+                if os.path.exists(path):
+                    os.remove(path)
+            fails = []
+            a, b = np.asarray(d.data), np.asarray(d2.data)
+            if a.shape != b.shape or [x.item() for x in a.ravel()] != [x.item() for x in b.ravel()]:
+                fails.append('data differ after the round trip: %s -> %s' % ([x.item() for x in a.ravel()][:4], [x.item() for x in b.ravel()][:4]))
+            if not (np.asarray(d.index_map) == np.asarray(d2.index_map)).all():
+                fails.append('label map differs after the round trip')
+            for k_ in ('min_value', 'min_delta', 'min_npix'):
+                v1, v2 = d.params[k_], d2.params[k_]
+                v1 = v1.item() if hasattr(v1, 'item') else v1
+                v2 = v2.item() if hasattr(v2, 'item') else v2
+                if v1 != v2 and not (fmt == 'fits' and isinstance(v1, float)):      # (floats in a FITS card: K6)
+                    fails.append('parameter %s: %r -> %r' % (k_, v1, v2))
+            for s in d:
+                t = d2[s.idx] if s.idx in d2._structures_dict else None
+                if t is None or (s.vmin, s.vmax, s.height) != (t.vmin, t.vmax, t.height):
+                    fails.append('vmin/vmax/height of %d: %r -> %r' % (s.idx, (s.vmin, s.vmax, s.height), None if t is None else (t.vmin, t.vmax, t.height)))
+                    break
+            ctx.case_done(None, ('byteorder', kind, fmt, it) if len(d) >= 2 else None)
+            if fails:
+                ctx.oracle_failure(dict(info, file=name), fails[:3], {})
 
 
 def big_cases(ctx, tmpdir):
